@@ -182,3 +182,52 @@ proof fn lemma_all_scans<'a, T>(t: Seq<(ChordKeys, &'a Action<'a, T>)>, k: Chord
         lemma_all_scans(self.chords@, keys);
         axiom_option_default::<&'a Action<'a, T>>();
     }
+
+// ---------------------------------------------------------------------------------------
+// chords v2: what an activated chord starts out as (get_active_chord, keyberon/src/chord.rs, cut
+// whole) - the unbounded counterpart of the bounded harness c09_b_get_active_chord.  "it is released
+// per the configured release rule": with release-on-first-release a chord whose release was already
+// seen while it was still being collected starts out as already released; with
+// release-on-last-release every participant has to be released.
+// ---------------------------------------------------------------------------------------
+//@ item keyberon/src/chord.rs enum ReleaseBehaviour
+//@@ keep-vis
+//@ item keyberon/src/chord.rs struct ChordV2
+//@@ keep-vis
+//@@ no-derives
+//@@ attr #[verifier::reject_recursive_types(T)]
+//@ item keyberon/src/chord.rs const SMOL_Q_LEN
+//@ raw
+/// heapless::Vec<u16, N>: a stub with the ASSUMED contract of new() and of extend() from a copied
+/// slice (R19); extend PANICS past the capacity - that is the precondition
+#[verifier::external_body]
+#[verifier::reject_recursive_types(T)]
+pub struct HVec<T, const N: usize> { v: std::vec::Vec<T> }
+impl<T, const N: usize> HVec<T, N> {
+    pub uninterp spec fn view(&self) -> Seq<T>;
+    #[verifier::external_body]
+    pub fn new() -> (r: Self) ensures r@.len() == 0 { unimplemented!() }
+}
+#[verifier::external_body]
+fn verif_extend_copied<T: Copy, const N: usize>(v: &mut HVec<T, N>, s: &[T])
+    requires old(v)@.len() + s@.len() <= N,
+    ensures final(v)@ == old(v)@ + s@,
+{ unimplemented!() }
+//@ item keyberon/src/chord.rs struct ActiveChord
+//@@ no-derives
+//@@ attr #[verifier::reject_recursive_types(T)]
+//@ item keyberon/src/chord.rs enum ActiveChordStatus
+//@ item keyberon/src/chord.rs fn get_active_chord
+//@@ resub R19 1 /remaining_keys_to_release\.extend\(cch\.participating_keys\.iter\(\)\.copied\(\)\);/ => `verif_extend_copied(&mut remaining_keys_to_release, cch.participating_keys);`
+//@@ ret r
+//@@ spec
+    requires
+        // OBSERVATION: heapless extend panics for a chord with more than 16 participants; the
+        // parser's limit on chord size is not under contract
+        cch.participating_keys@.len() <= 16,
+    ensures
+        r.coordinate == coord, r.delay == since, r.action == cch.action, r.participating_keys@ == cch.participating_keys@,
+        // release-on-last-release: every participant has to be released; otherwise nothing to wait for
+        r.remaining_keys_to_release@ == (if cch.release_behaviour == ReleaseBehaviour::OnLastRelease { cch.participating_keys@ } else { Seq::<u16>::empty() }),
+        // already released while being collected, under release-on-first-release: starts out released
+        r.status == (if release_found && cch.release_behaviour == ReleaseBehaviour::OnFirstRelease { ActiveChordStatus::UnreadReleased } else { ActiveChordStatus::Unread }),
